@@ -83,6 +83,32 @@ func (c *c17gen) amount(around ...*big.Int) string {
 	return pool[c.g.Intn(len(pool))].String()
 }
 
+// an offer at or above the threshold lo (and not above hi when hi is set) if valid, else a perturbed one
+func (c *c17gen) offerAmt(valid bool, lo, hi *big.Int) string {
+	if !valid || lo == nil {
+		return c.amount(lo, hi)
+	}
+	cand := []*big.Int{lo, new(big.Int).Add(lo, big.NewInt(1)), new(big.Int).Add(lo, amt(1, 0))}
+	if hi != nil {
+		cand = append(cand, hi, hi)
+	}
+	x := cand[c.g.Intn(len(cand))]
+	if hi != nil && x.Cmp(hi) > 0 {
+		x = hi
+	}
+	return x.String()
+}
+
+func (c *c17gen) liveNames() []int {
+	var l []int
+	for _, i := range c.sortedNames() {
+		if !c.s.expired(c.s.names[i]) {
+			l = append(l, i)
+		}
+	}
+	return l
+}
+
 func (c *c17gen) regCost(n, a, dur int) *big.Int {
 	ext := c.p.Price.PriceExtends.BigInt()
 	first := c.p.Price.GetFirstYearDymNamePrice(c17Name(n)).BigInt()
@@ -143,22 +169,54 @@ func (c *c17gen) next() string {
 	for _, x := range w {
 		tot += x.w
 	}
-	r := g.Intn(tot)
-	kind := ""
-	for _, x := range w {
-		if r < x.w {
-			kind = x.k
-			break
-		}
-		r -= x.w
-	}
 	s := c.s
 	names := c.sortedNames()
+	if live := c.liveNames(); len(live) > 0 && g.Chance(85) {
+		names = live
+	}
+	draw := func() string {
+		r := g.Intn(tot)
+		for _, x := range w {
+			if r < x.w {
+				return x.k
+			}
+			r -= x.w
+		}
+		return "adv"
+	}
+	hasBid := false
+	for _, so := range s.nameSO {
+		hasBid = hasBid || so.HighestBid != nil
+	}
+	for _, so := range s.alSO {
+		hasBid = hasBid || so.HighestBid != nil
+	}
+	feasible := func(k string) bool {
+		switch k {
+		case "xfer", "ctrl", "ura", "det", "sell", "offer":
+			return len(names) > 0
+		case "csell", "buy":
+			return len(s.nameSO)+len(s.alSO) > 0
+		case "comp":
+			return hasBid
+		case "cbo", "abo":
+			return len(s.bos) > 0
+		case "rollapp":
+			return len(s.rolls) < c.h.nR
+		case "alias":
+			return len(s.rolls) > 0
+		}
+		return true
+	}
+	kind := draw()
+	for try := 0; valid && !feasible(kind) && try < 8; try++ {
+		kind = draw()
+	}
 	switch kind {
 	case "fund":
 		return fmt.Sprintf("fund %d %s", c.acct(), []string{amt(1, 0).String(), amt(50, 0).String(), amt(1000, 3).String()}[g.Intn(3)])
 	case "trade":
-		return fmt.Sprintf("trade %d %d", g.Intn(4)/3^1, g.Intn(4)/3^1)
+		return fmt.Sprintf("trade %d %d", g.Intn(7)/6^1, g.Intn(7)/6^1)
 	case "resv":
 		if g.Chance(50) {
 			return "resv -"
@@ -174,9 +232,11 @@ func (c *c17gen) next() string {
 		for _, so := range s.alSO {
 			pool = append(pool, so.ExpireAt-s.now, so.ExpireAt-s.now+1)
 		}
-		for _, d := range s.names {
-			pool = append(pool, d.ExpireAt-s.now-1, d.ExpireAt-s.now, d.ExpireAt-s.now+1, d.ExpireAt+grace-s.now-1, d.ExpireAt+grace-s.now, d.ExpireAt+grace-s.now+1,
-				d.ExpireAt-s.now-int64(c.p.Misc.SellOrderDuration.Seconds())-1, d.ExpireAt-s.now-int64(c.p.Misc.SellOrderDuration.Seconds()))
+		if g.Chance(30) {
+			for _, d := range s.names {
+				pool = append(pool, d.ExpireAt-s.now-1, d.ExpireAt-s.now, d.ExpireAt-s.now+1, d.ExpireAt+grace-s.now-1, d.ExpireAt+grace-s.now, d.ExpireAt+grace-s.now+1,
+					d.ExpireAt-s.now-int64(c.p.Misc.SellOrderDuration.Seconds())-1, d.ExpireAt-s.now-int64(c.p.Misc.SellOrderDuration.Seconds()))
+			}
 		}
 		var ps []int64
 		for _, x := range pool {
@@ -212,6 +272,9 @@ func (c *c17gen) next() string {
 		return fmt.Sprintf("reg %d %d %d %s %d", a, n, dur, pay, g.Intn(3))
 	case "xfer":
 		n := c.name()
+		if v, ok := pick(g, names); ok && valid {
+			n = v
+		}
 		a := c.acct()
 		if d, ok := s.names[n]; ok && valid {
 			a = c.id(d.Owner)
@@ -223,6 +286,9 @@ func (c *c17gen) next() string {
 		return fmt.Sprintf("xfer %d %d %d", a, n, b)
 	case "ctrl":
 		n := c.name()
+		if v, ok := pick(g, names); ok && valid {
+			n = v
+		}
 		a := c.acct()
 		if d, ok := s.names[n]; ok && valid {
 			a = c.id(d.Owner)
@@ -268,6 +334,9 @@ func (c *c17gen) next() string {
 		return fmt.Sprintf("ura %d %d %d %d %d %s", a, n, ch, e, path, val)
 	case "det":
 		n := c.name()
+		if v, ok := pick(g, names); ok && valid {
+			n = v
+		}
 		a := c.acct()
 		if d, ok := s.names[n]; ok && valid {
 			a = c.id(d.Controller)
@@ -275,7 +344,7 @@ func (c *c17gen) next() string {
 		contact := []string{"keep", "k0", "k1", "k2"}[g.Intn(4)]
 		return fmt.Sprintf("det %d %d %s %d", a, n, contact, g.Intn(2))
 	case "sell":
-		if g.Chance(25) && len(s.alias) > 0 {
+		if g.Chance(35) && len(s.alias) > 0 {
 			var ls []int
 			for l := range s.alias {
 				ls = append(ls, l)
@@ -302,6 +371,12 @@ func (c *c17gen) next() string {
 		n := c.name()
 		if v, ok := pick(g, names); ok && valid {
 			n = v
+			for try := 0; try < 4; try++ {
+				if _, has := s.nameSO[n]; !has {
+					break
+				}
+				n, _ = pick(g, names)
+			}
 		}
 		a := c.acct()
 		if d, ok := s.names[n]; ok && valid {
@@ -362,11 +437,13 @@ func (c *c17gen) next() string {
 		}
 		return fmt.Sprintf("%s %d %s", kind, a, tgt)
 	case "buy":
-		if g.Chance(25) && (len(s.alSO) > 0 || !valid) {
+		if (g.Chance(25) || (len(s.alSO) > 0 && g.Chance(50))) && (len(s.alSO) > 0 || !valid) {
 			l := c.alias()
 			var ls []int
-			for x := range s.alSO {
-				ls = append(ls, x)
+			for x, so := range s.alSO {
+				if !valid || so.ExpireAt >= s.now {
+					ls = append(ls, x)
+				}
 			}
 			sort.Ints(ls)
 			if v, ok := pick(g, ls); ok {
@@ -392,14 +469,16 @@ func (c *c17gen) next() string {
 				if so.HasSetSellPrice() {
 					sp = so.SellPrice.Amount.BigInt()
 				}
-				off = c.amount(c.minNextBid(so), sp)
+				off = c.offerAmt(valid, c.minNextBid(so), sp)
 			}
 			return fmt.Sprintf("buy %d l %d %s %d", a, l, off, dst)
 		}
 		n := c.name()
 		var ns []int
-		for x := range s.nameSO {
-			ns = append(ns, x)
+		for x, so := range s.nameSO {
+			if !valid || so.ExpireAt >= s.now {
+				ns = append(ns, x)
+			}
 		}
 		sort.Ints(ns)
 		if v, ok := pick(g, ns); ok && g.Chance(90) {
@@ -415,11 +494,11 @@ func (c *c17gen) next() string {
 			if so.HasSetSellPrice() {
 				sp = so.SellPrice.Amount.BigInt()
 			}
-			off = c.amount(c.minNextBid(so), sp)
+			off = c.offerAmt(valid, c.minNextBid(so), sp)
 		}
 		return fmt.Sprintf("buy %d n %d %s", a, n, off)
 	case "offer":
-		if g.Chance(25) && (len(s.alias) > 0 || !valid) {
+		if g.Chance(30) && (len(s.alias) > 0 || !valid) {
 			l := c.alias()
 			var ls []int
 			for x := range s.alias {
@@ -456,7 +535,11 @@ func (c *c17gen) next() string {
 					cont = v
 				}
 			}
-			return fmt.Sprintf("offer %d l %d %s %s %d", a, l, c.amount(base, c.p.Price.MinOfferPrice.BigInt()), cont, dst)
+			lo := c.p.Price.MinOfferPrice.BigInt()
+			if base != nil && base.Cmp(lo) > 0 {
+				lo = base
+			}
+			return fmt.Sprintf("offer %d l %d %s %s %d", a, l, c.offerAmt(valid, lo, nil), cont, dst)
 		}
 		n := c.name()
 		if v, ok := pick(g, names); ok && valid {
@@ -482,7 +565,11 @@ func (c *c17gen) next() string {
 				cont = []string{"101", "201", "109"}[g.Intn(3)]
 			}
 		}
-		return fmt.Sprintf("offer %d n %d %s %s", a, n, c.amount(base, c.p.Price.MinOfferPrice.BigInt()), cont)
+		lo := c.p.Price.MinOfferPrice.BigInt()
+		if base != nil && base.Cmp(lo) > 0 {
+			lo = base
+		}
+		return fmt.Sprintf("offer %d n %d %s %s", a, n, c.offerAmt(valid, lo, nil), cont)
 	case "cbo":
 		id := []string{"101", "102", "201", "103"}[g.Intn(4)]
 		a := c.acct()
@@ -550,6 +637,14 @@ func (c *c17gen) next() string {
 			a = c.id(r.Owner)
 		}
 		l := c.alias()
+		if valid {
+			for try := 0; try < 5; try++ {
+				if _, used := s.alias[l]; !used {
+					break
+				}
+				l = c.alias()
+			}
+		}
 		pay := c.p.Price.GetAliasPrice(c17Alias(l)).BigInt()
 		if !valid && g.Chance(50) {
 			pay = new(big.Int).Add(pay, big.NewInt(int64(g.Intn(3)-1)))
@@ -614,7 +709,7 @@ func (c *c17gen) queries() []string {
 }
 
 func (h *c17h) genTrace(g *Rng) {
-	nA, nN, nL, nR := 3+g.Intn(3), 3+g.Intn(6), 2+g.Intn(3), 2+g.Intn(2)
+	nA, nN, nL, nR := 3+g.Intn(3), 3+g.Intn(6), 3+g.Intn(4), 2+g.Intn(2)
 	day := 86400
 	grace := []int{30 * day, 31 * day, 45 * day}[g.Intn(3)]
 	soDur := []int{3600, day, 3 * day, 7 * day}[g.Intn(4)]
@@ -636,10 +731,10 @@ func (h *c17h) genTrace(g *Rng) {
 		ns[i] = new(big.Int).Add(prev, amt(int64(1+g.Intn(7)), int64(g.Intn(2)))).String()
 	}
 	tn, ta := 1, 1
-	if g.Chance(8) {
+	if g.Chance(5) {
 		tn = 0
 	}
-	if g.Chance(8) {
+	if g.Chance(5) {
 		ta = 0
 	}
 	line := fmt.Sprintf("reset %d %d %d %d %d %d %s %d %s %s %s %d %d %d", nA, nN, nL, nR, grace, soDur, minOffer, inc, ext,
@@ -652,10 +747,18 @@ func (h *c17h) genTrace(g *Rng) {
 	}
 	for a := 0; a < nA; a++ {
 		if g.Chance(88) {
-			emit(fmt.Sprintf("fund %d %s", a, []string{amt(20, 0).String(), amt(400, 5).String(), amt(5000, 0).String()}[g.Intn(3)]))
+			emit(fmt.Sprintf("fund %d %s", a, []string{amt(60, 0).String(), amt(400, 5).String(), amt(5000, 0).String(), amt(5000, 1).String()}[g.Intn(4)]))
 		}
 	}
 	c := &c17gen{h: h, g: g}
+	if g.Chance(65) {
+		// two RollApps of different creators early, so that alias trading has both sides
+		a := g.Intn(nA)
+		b := (a + 1 + g.Intn(nA-1)) % nA
+		emit(fmt.Sprintf("rollapp %d 1 %d 0", a, []int{1, 1, 0}[g.Intn(3)]))
+		emit(fmt.Sprintf("rollapp %d 2 %d 1", b, []int{2, 2, 0}[g.Intn(3)]))
+		emit("v")
+	}
 	nOps := 40 + g.Intn(70)
 	for i := 0; i < nOps; i++ {
 		c.s = h.snap()
@@ -689,7 +792,7 @@ func TestC17(t *testing.T) {
 		r.Trace()
 		return
 	}
-	n := r.N(140, 2600)
+	n := r.N(400, 4500)
 	for i := 0; i < n; i++ {
 		h.genTrace(r.Rng.Fork())
 	}
